@@ -8,6 +8,12 @@ file arguments (each its own assembly), STDIN; AGP and TPF input (format from th
 flag before or after the other arguments; in process (click's CliRunner) and as a real child process
 with a pipe on its standard input.  Whatever the route, the pairs reported on STDERR must be exactly
 the brute-force overlapping pairs of each assembly.
+
+The number of pairs is not bounded by the statement, so a few assemblies with many overlapping pairs
+(100, 101, 105, 150, 1001, 1035 ...; n mutually overlapping or identical intervals give n(n-1)/2 pairs,
+groups on several contigs add up to any count, spread over scaffolds, next to abutting and other-contig
+decoys) go through the same routes and through find_overlapping_fragments, against the same oracle:
+every pair is named, however many there are.
 """
 
 import collections
@@ -95,7 +101,17 @@ def check_scan(scaffolds, col, inp, cli=False):
     if (got_pairs is None) != (not want):
         col.fail(f"find_overlapping_fragments returned {got_pairs!r} but {len(want)} pairs overlap", inp)
     elif sorted(got) != sorted(want):
-        col.fail(f"scan reported pairs {sorted(got)} expected {sorted(want)} (each unordered pair once)", inp)
+        if len(want) <= 12:
+            col.fail(f"scan reported pairs {sorted(got)} expected {sorted(want)} (each unordered pair once)", inp)
+        else:
+            gc, wc = collections.Counter(got), collections.Counter(want)
+            name = lambda pr: " / ".join("%s:%d-%d" % tuple(frags[k].key_tuple[:3]) + f" (fragment {k})" for k in pr)  # noqa: E731
+            col.fail(
+                f"scan reported {len(got)} pairs, {len(want)} pairs of same-contig fragments share a base (each unordered "
+                f"pair once); missing e.g. {[name(pr) for pr in sorted((wc - gc))[:3]]}, not expected e.g. "
+                f"{[name(pr) for pr in sorted((gc - wc))[:3]]}",
+                inp,
+            )
     if cli:
         # recorded inputs of the earlier shape: the same assembly as one AGP file argument
         check_cli(cli_input([{"scaffolds": scaffolds, "fmt": "AGP", "ext": ".agp"}], "args"), col)
@@ -262,9 +278,15 @@ def check_cli(inp, col):
     n, got = reported_pairs(err)
     n_want = sum(want.values())
     if n != n_want:
+        tail = [ln for ln in err.splitlines() if ln.strip()]
+        named = set(got or ())
+        lost = collections.Counter({k: v for k, v in want.items() if k not in named})
         col.fail(
             f"asm-format {shown} ({how}) reported {n} overlaps on STDERR, {n_want} pairs of same-contig fragments "
-            f"share a base within an assembly: {fmt_pairs(want)}",
+            "share a base within an assembly"
+            + (f": {fmt_pairs(want)}" if len(want) <= 6 else "")
+            + (f"; never named: {fmt_pairs(lost)}" if got is not None and lost and len(want) > 6 else "")
+            + (f"; STDERR ends with {tail[-1]!r}" if tail and len(want) > 6 else ""),
             inp,
         )
     elif got is not None and got != want:
@@ -299,6 +321,63 @@ OUTS = (
     (None, "TPF"),
     ("o.txt", "AGP"),
 )
+
+
+def big_assembly(n_pairs, n_scaffolds, identical, rng):
+    """
+    scaffolds whose fragments hold exactly n_pairs overlapping same-contig pairs: n_pairs is split into
+    triangular numbers, each a group of n mutually overlapping intervals on its own contig (shifted by one
+    base each, or n copies of one interval), plus per group two abutting same-contig intervals and the same
+    coordinates on another contig (no pair); shuffled and dealt over the scaffolds
+    """
+    frags, left, g = [], n_pairs, 0
+    while left > 0:
+        n = 2
+        while (n + 1) * n // 2 <= left:
+            n += 1
+        left -= n * (n - 1) // 2
+        ln = n + 50
+        for j in range(n):
+            st = 10 if identical else 10 + j
+            frags.append((f"k{g}", st, st + ln - 1, -1 if j % 3 == 0 else 1))
+        hi = max(f[2] for f in frags if f[0] == f"k{g}")
+        frags += [(f"k{g}", 1, 9, 1), (f"k{g}", hi + 1, hi + 5, -1), (f"z{g}", 10, ln + 9, 1)]
+        g += 1
+    rng.shuffle(frags)
+    scaffolds = [frags[i::n_scaffolds] for i in range(n_scaffolds)]
+    return [[list(f) for f in sc] for sc in scaffolds if sc]
+
+
+def big_cases(tier, rng, routes):
+    """(scaffolds, cli inputs) for assemblies with many overlapping pairs"""
+    small = {"scaffolds": ASM_NONE, "fmt": "TPF", "ext": ".tpf"}
+
+    def one(k, nsc, ident, source="args", fmt="AGP", ext=None, ifmt=None, out=None, ofmt=None, runner="click", more=()):
+        scs = big_assembly(k, nsc, ident, rng)
+        if sum(expected_pairs([{"scaffolds": scs}]).values()) != k:
+            raise AssertionError(f"generator: assembly built for {k} overlapping pairs does not hold that many")
+        files = [{"scaffolds": scs, "fmt": fmt, "ext": ("." + fmt.lower()) if ext is None else ext, "gaps": k % 2 == 1}, *more]
+        return scs, cli_input(files, source, ifmt, out, ofmt, None, "first" if k % 2 else "last", runner)
+
+    yield one(100, 3, False)
+    yield one(101, 3, False)
+    yield one(101, 1, True, source="stdin", ext="")
+    yield one(101, 2, False, fmt="TPF", ext=".txt", ifmt="tpf")
+    yield one(105, 2, True, out="o.agp")
+    yield one(150, 4, True, fmt="TPF")
+    yield one(1001, 5, False, source="stdin", fmt="TPF", ext="", ifmt="TPF")
+    yield one(1035, 2, False, ofmt="STR")
+    yield one(101, 2, False, more=(small,))
+    yield one(150, 3, True, fmt="TPF", more=({"scaffolds": big_assembly(101, 2, False, rng), "fmt": "AGP", "ext": ".agp"},))
+    yield one(120, 1, False, source="stdin", ext="", runner="process")
+    if tier == "quick":
+        return
+    counts = [99, 102, 103, 199, 200, 201, 256, 257, 500, 501, 990, 999, 1000, 1002, 2000, 2001, 5050, 10001]
+    counts += [rng.randint(101, 3000) for _ in range(20)]
+    for ci, k in enumerate(counts):
+        source, fmt, fext, ifmt, out, ofmt, _name, _flag = routes[(ci * 37) % len(routes)]
+        yield one(k, 1 + ci % 5, ci % 3 == 0, source=source, fmt=fmt, ext=fext or "", ifmt=ifmt, out=out, ofmt=ofmt)
+    yield one(300, 2, False, runner="process", more=(small,))
 
 
 def single_routes():
@@ -366,6 +445,8 @@ def run_in(tier, seed, **opts):
         "product of input routes (file argument / several files / STDIN, AGP / TPF by extension or -i, output to "
         "STDOUT or a file in each format, -n, flag position; in process and as a child process) on fixed assemblies "
         "with 0, 2 and 3 overlapping pairs, and on every k-th enumerated assembly with the routes taken in rotation; "
+        "a few assemblies with many overlapping pairs (100, 101, 105, 150, 1001, 1035; thorough: up to 10001 and random "
+        "counts) built from groups of mutually overlapping or identical intervals, through the scan and the command line; "
         "non-trivial = distinct (input) tuples (for the command line: at least one overlapping pair expected)"
     )
     ivs = [(s, e) for s in range(1, N + 1) for e in range(s, N + 1)]
@@ -397,6 +478,14 @@ def run_in(tier, seed, **opts):
         cli_case(route_input(route, ASM_TWO, runner="process"), col)
     two = [{"scaffolds": ASM_NONE, "fmt": "AGP", "ext": ".agp"}, {"scaffolds": ASM_DUP, "fmt": "TPF", "ext": ".tpf"}]
     cli_case(cli_input(two, "args", runner="process"), col)
+    # many overlapping pairs: through the scan and through the command line
+    for bi, (scs, inp) in enumerate(big_cases(tier, rng, routes)):
+        sinp = {"kind": "scan", "scaffolds": scs, "cli": False}
+        check_scan(scs, col, sinp)
+        col.case(("scan", tuple(tuple(map(tuple, s)) for s in scs)))
+        cli_case(inp, col, sample=False)
+        if col.full:
+            break
     every = 41 if tier == "quick" else 13
     rot = 0
     for n in range(1, max_n + 1):
